@@ -222,7 +222,7 @@ func growTree(t *treeSpec, leaves *[]*growIt) model.Iterator {
 
 func hasAppend(ops []string) bool {
 	for _, o := range ops {
-		if strings.HasPrefix(o, "a") {
+		if strings.HasPrefix(o, "a") || strings.HasPrefix(o, "p") {
 			return true
 		}
 	}
@@ -421,6 +421,22 @@ func runOpsG(it model.Iterator, root model.Iterator, ops []string, total int, le
 			if k >= 0 && k < len(leaves) {
 				leaves[k].les = append(leaves[k].les, model.LogEvent{Timestamp: ts, Msg: []byte(strconv.Itoa(msg))})
 				total++
+				toks = append(toks, "."+suffix(root))
+			} else {
+				toks = append(toks, "bad-op")
+			}
+			continue
+		}
+		if strings.HasPrefix(op, "p") {
+			f := strings.Split(op[1:], ":")
+			k, e1 := strconv.Atoi(f[0])
+			var i int
+			var e2 error = fmt.Errorf("bad")
+			if len(f) == 2 {
+				i, e2 = strconv.Atoi(f[1])
+			}
+			if e1 == nil && e2 == nil && k >= 0 && k < len(leaves) {
+				leaves[k].idx = i
 				toks = append(toks, "."+suffix(root))
 			} else {
 				toks = append(toks, "bad-op")
@@ -742,6 +758,46 @@ func appendOracle(ls []leafSpec, ops []string, toks []string) (alone map[int][]e
 	return alone, true
 }
 
+// repositionScript: read k events, peek, release (a held cursor between two requests), every source is moved to a new index
+// (ApplyState -> SetPos on the journal iterators), the tree is switched backward and forward again (what ApplyState does), read on
+func repositionScript(k int, peek bool, idx []int) []string {
+	var ops []string
+	for i := 0; i < k; i++ {
+		ops = append(ops, "g", "n")
+	}
+	if peek {
+		ops = append(ops, "g")
+	}
+	ops = append(ops, "r")
+	for i, x := range idx {
+		ops = append(ops, fmt.Sprintf("p%d:%d", i, x))
+	}
+	return append(ops, "b1", "b0", "d")
+}
+
+// repositionOracle: after the moves every source read alone delivers its records from the new index on
+func repositionOracle(ls []leafSpec, ops []string) (map[int][]ev, bool) {
+	n := len(ops)
+	if n < 3+len(ls) || ops[n-1] != "d" || ops[n-2] != "b0" || ops[n-3] != "b1" {
+		return nil, false
+	}
+	alone := map[int][]ev{}
+	for i := range ls {
+		op := ops[n-3-len(ls)+i]
+		f := strings.Split(strings.TrimPrefix(op, "p"), ":")
+		if !strings.HasPrefix(op, "p") || len(f) != 2 {
+			return nil, false
+		}
+		k, e1 := strconv.Atoi(f[0])
+		x, e2 := strconv.Atoi(f[1])
+		if e1 != nil || e2 != nil || k != i || x < 0 || x > len(ls[i].Recs) {
+			return nil, false
+		}
+		alone[ls[i].Tags] = append([]ev{}, ls[i].events(false)[x:]...)
+	}
+	return alone, true
+}
+
 // genAppends: 1..3 records appended to random sources, each later than everything stored so far (a log that grows in time)
 func genAppends(rng *vh.Rng, ls []leafSpec) []string {
 	var maxTs int64 = -1 << 62
@@ -866,6 +922,14 @@ func runMixerCase0(c mixerCase, sec *vh.Section) pending {
 				What: what + ": " + w})
 		} else if want := specTreeWith(c.Tree, back, alone); evsString(got) != evsString(want) {
 			res.Mismatch(vh.Mismatch{Section: "mixer", Function: "mergeSpec tie rule (" + what + ")", Input: c, Impl: evsString(got), Model: evsString(want)})
+		}
+	}
+	if alone, ok := repositionOracle(ls, c.Ops); ok && len(drains) == 1 && !c.Tree.hasBad() {
+		if kind, w := checkProperty(drains[0], alone, false); kind != "" {
+			res.SpecFail(vh.SpecFailure{Section: "mixer", Kind: kind, Input: c, Impl: evsString(drains[0]), Spec: evsString(specTreeWith(c.Tree, false, alone)),
+				What: "read after the sources were moved under the mixer tree and the tree switched backward and forward again (ApplyState): " + w})
+		} else if want := specTreeWith(c.Tree, false, alone); evsString(drains[0]) != evsString(want) {
+			res.Mismatch(vh.Mismatch{Section: "mixer", Function: "mergeSpec tie rule (read after a re-position)", Input: c, Impl: evsString(drains[0]), Model: evsString(want)})
 		}
 	}
 	cmd := "mix "
@@ -993,6 +1057,15 @@ func sectionMixer(rng *vh.Rng, corpus []mixerCase) {
 				ps = append(ps, runMixerCase(mixerCase{t, s}, sec))
 				res.Dist(sec, "exhaustive-2x2")
 			}
+			// every point of the stream as the end of a request of a held cursor, then both sources moved to every pair of indices
+			for k := 0; k <= len(xa)+len(xb); k++ {
+				for i0 := 0; i0 <= len(xa); i0++ {
+					for i1 := 0; i1 <= len(xb); i1++ {
+						ps = append(ps, runMixerCase(mixerCase{t, repositionScript(k, (k+i0+i1)%2 == 0, []int{i0, i1})}, sec))
+						res.Dist(sec, "exhaustive-2x2-reposition")
+					}
+				}
+			}
 			// every record of either source unreadable (permanently: fixed scripts; once: read with retries)
 			for who := 0; who < 2; who++ {
 				src := [][]int64{xa, xb}[who]
@@ -1083,6 +1156,14 @@ func sectionMixer(rng *vh.Rng, corpus []mixerCase) {
 					break
 				}
 			}
+		}
+		{
+			idx := make([]int, len(ls))
+			for j := range idx {
+				idx[j] = rng.Range(0, len(ls[j].Recs))
+			}
+			ps = append(ps, runMixerCase(mixerCase{t, repositionScript(rng.Range(0, totalRecs(ls)+1), rng.Bool(), idx)}, sec))
+			res.Dist(sec, "reposition")
 		}
 		if shape != "unsorted" {
 			if aps := genAppends(rng, ls); aps != nil {
@@ -1900,7 +1981,12 @@ func addDoc(d corpusDoc, mc *[]mixerCase, cc *[]cursorCase, sc *[]systemCase) {
 		}
 	case "system":
 		var c systemCase
-		if json.Unmarshal(d.Input, &c) == nil && c.N > 0 {
+		var w struct {
+			Case systemCase `json:"case"`
+		}
+		if json.Unmarshal(d.Input, &w) == nil && w.Case.N > 0 {
+			*sc = append(*sc, w.Case)
+		} else if json.Unmarshal(d.Input, &c) == nil && c.N > 0 {
 			*sc = append(*sc, c)
 		}
 	}
